@@ -20,6 +20,7 @@ type Clause struct {
 	Props    []string
 	ParamPos map[string]string
 	SitePos  string // file:offset of the call's '(' for assertcall clauses
+	RangeInv bool   // clause of a range-over-func body that is an invariant of the whole loop
 }
 
 type FuncContract struct {
@@ -78,7 +79,7 @@ type PkgContracts struct {
 	Axioms   []string // raw SMT axioms with provenance: `//@ axiom name: (smt)`
 }
 
-var kwRe = regexp.MustCompile(`^(func|spec|lemma|prop|requires|ensures|modifies|loop|assert|trusted|pure|inline|nopanic|arith|ghost|monitor|invariant|protects|body|import|axiom|opt)\b`)
+var kwRe = regexp.MustCompile(`^(func|spec|lemma|prop|requires|ensures|rangeinv|modifies|loop|assert|trusted|pure|inline|nopanic|arith|ghost|monitor|invariant|protects|body|import|axiom|opt)\b`)
 
 func parseContractFile(path string) (*PkgContracts, error) {
 	data, err := os.ReadFile(path)
@@ -194,6 +195,11 @@ func parseContractFile(path string) (*PkgContracts, error) {
 				cur.Requires = append(cur.Requires, &Clause{Kind: "requires", Text: rest, Line: it.line})
 			case "ensures":
 				cur.Ensures = append(cur.Ensures, &Clause{Kind: "ensures", Text: rest, Line: it.line})
+			case "rangeinv":
+				// body of a range-over-func loop: assumed at the start of every iteration, re-established
+				// at its end, and therefore (range-over-func rule at the iterator call) after the loop
+				cur.Requires = append(cur.Requires, &Clause{Kind: "requires", Text: rest, Line: it.line, RangeInv: true})
+				cur.Ensures = append(cur.Ensures, &Clause{Kind: "ensures", Text: rest, Line: it.line, RangeInv: true})
 			case "modifies":
 				cur.HasMod = true
 				for _, p := range strings.Split(rest, ",") {
